@@ -57,5 +57,8 @@ if __name__ == '__main__':
     what = sys.argv[1] if len(sys.argv) > 1 else 'determinism'
     if what == 'determinism':
         sys.exit(determinism(int(sys.argv[2]) if len(sys.argv) > 2 else 2048))
+    if what == 'realfs':
+        sys.exit(subprocess.call(['/venv/bin/python', '-W', 'ignore',
+                                  os.path.join(VERIF, 'tools', 'realfs_check.py')] + sys.argv[2:]))
     print(__doc__)
     sys.exit(2)
